@@ -164,6 +164,17 @@ def gen_plan(rng, tier, index, config=None):
                 steps.append({"op": "public_copy", "src": src, "dst": pc})
                 nodes[pc] = False
                 steps.append({"op": "hfp", "src": pc, "i": path[0][0], "then": _index(r), "via": r.pick(["subkey", "path"])})
+            if via == "subkey" and priv and len(path) == 1 and r.chance(0.25):
+                # cache pressure: many other children of the same node are derived, then the same child is asked for again
+                # by another route (private where it was public, by path where it was by subkey)
+                i0 = path[0][0]
+                lo = (i0 + 1 + r.below(50)) % ((1 << 31) - 200)
+                cnt = r.pick([3, 20, 63, 64, 65, 70, 130])
+                steps.append({"op": "subkeys", "src": src, "comps": [[[lo, lo + cnt - 1, False]]], "spell": "H"})
+                again = {"op": "derive", "src": src, "dst": new_id(), "path": [[i0, path[0][1]]], "spell": spell, "via": "path", "pub_suffix": False}
+                nodes[again["dst"]] = True
+                steps.append(again)
+                recent.append(again)
         elif op == "rederive" and recent:
             old = r.pick(recent)
             st = dict(old)
